@@ -99,11 +99,21 @@ theorem vsize_add (v : BitVec 128) (n : Nat) (h : n < 32) :
   · simp only [hi64_add, hi64_mk]; congr 1
     interval_cases n <;> decide
 
-set_option maxRecDepth 100000 in
 theorem rotate32By_lanes (v : BitVec 128) (n : Nat) (h : n < 32) :
     rotate32By v n = mk (P.rot32Lane n (hi64 v)) (P.rot32Lane n (lo64 v)) := by
-  unfold rotate32By P.rot32Lane sll_epi32 srl_epi32 cvtsi64_si128 or_si128 lane32 mk32 mk lo64 hi64
-  interval_cases n <;> simp <;> bv_decide
+  have hn : (BitVec.ofNat 64 n).toNat = n := by simp [BitVec.toNat_ofNat]; omega
+  by_cases h0 : n = 0
+  · subst h0
+    have hr : (BitVec.ofNat 64 (2 ^ 64 + 32 - 0)).toNat = 32 := by decide
+    have h32 : (32 : Nat) > 31 := by decide
+    simp only [rotate32By, sll_epi32, srl_epi32, cvtsi64_si128, lo64_mk, hn, hr, rot32Lane_zero, Nat.not_lt_zero, ↓reduceIte,
+      gt_iff_lt, h32, BitVec.shiftLeft_zero, or_si128, mk32_lanes, mk_lo_hi]
+    simp
+  · have hr : (BitVec.ofNat 64 (2 ^ 64 + 32 - n)).toNat = 32 - n := by simp [BitVec.toNat_ofNat]; omega
+    have h1 : ¬ n > 31 := by omega
+    have h2 : ¬ 32 - n > 31 := by omega
+    simp only [rotate32By, sll_epi32, srl_epi32, cvtsi64_si128, lo64_mk, hn, hr, h1, h2, ↓reduceIte, or_mk32]
+    simp only [mk32_eq_mk, rot32Lane_join n h0 h, lane32_0, lane32_1, lane32_2, lane32_3, rot32]
 
 theorem updateRemainder_refines (x : State) (hb : x.buffer.buf.length = 32) (hi : x.buffer.idx < 32) :
     toPortable (updateRemainder x) =
@@ -126,10 +136,11 @@ theorem finalizeCommon_refines (n : Nat) (x : State) (hx : x.buffer.Inv) :
 theorem modularReduction_refines (x init : BitVec 128) :
     (lo64 (modularReduction x init), hi64 (modularReduction x init))
       = P.moduleReduction (hi64 x) (lo64 x) (hi64 init) (lo64 init) := by
-  unfold modularReduction P.moduleReduction andNot insert_epi32 srli_epi64 slli_si128 add_epi64 xor_si128 andnot_si128
-    lane32 mk32 mk lo64 hi64
-  simp
-  constructor <;> bv_decide
+  have h62 : ¬ (62 : Nat) > 63 := by decide
+  have h63 : ¬ (63 : Nat) > 63 := by decide
+  simp only [modularReduction, P.moduleReduction, andNot, lo64_xor, hi64_xor, lo64_slli8, hi64_slli8, lo64_srli _ _ h62, lo64_srli _ _ h63,
+    hi64_srli _ _ h62, hi64_srli _ _ h63, lo64_andnot, hi64_andnot, lo64_add, hi64_add, add_self_shl, shl1_shl1, signBit_lo, signBit_hi, Prod.mk.injEq]
+  constructor <;> bv_lsb
 
 theorem finalize64_refines (x : State) (hx : x.buffer.Inv) :
     finalize64 x = P.out64 (P.finAbs 4 (toPortable x.r, x.buffer.asSlice)) := by
